@@ -149,6 +149,27 @@ def reopen_model(ctx, thorough):
     ctx.notes["reopen_model"] = {"code_choices_clean": not r["violated"], "alternatives_rejected": rejected}
 
 
+CLOSETWICE = """SPECIFICATION Spec
+CONSTANT Guard = "%s"
+INVARIANTS NoPanic TransportClosedOnce
+PROPERTY BothReturn
+CHECK_DEADLOCK FALSE
+"""
+
+
+def close_twice_model(ctx):
+    """CloseTwice.tla: two overlapping callers of Close; the code's guard (sync.Once) and an atomic flag are fine, check-then-act is rejected."""
+    r = ctx.tlc("CloseTwice", cfg="ct.cfg", files={"ct.cfg": CLOSETWICE % "once"}, workers=2, timeout=300)
+    if r["violated"]:
+        ctx.violation("C07:model:CloseTwice", "CloseTwice.tla: two overlapping Close calls behind the code's guard panic, close the transport twice or never return:\n" + r["stdout"][-1500:],
+                      {"kind": "model", "spec": "CloseTwice"})
+    rc = ctx.tlc("CloseTwice", cfg="ct.cfg", files={"ct.cfg": CLOSETWICE % "cas"}, workers=2, timeout=300)
+    ra = ctx.tlc("CloseTwice", cfg="ct.cfg", files={"ct.cfg": CLOSETWICE % "check-then-act"}, workers=2, timeout=300, expect_violation=True)
+    if rc["violated"] or not ra["violated"]:
+        raise ToolError("CloseTwice.tla: the atomic-flag guard must be accepted (%s) and check-then-act rejected (%s)" % (not rc["violated"], bool(ra["violated"])))
+    ctx.notes["close_twice_model"] = {"once": "holds", "cas": "holds", "check-then-act": "rejected (NoPanic)"}
+
+
 def scenarios(ctx, thorough):
     points = hook_points()
     ps = pairs(points, thorough)
@@ -231,6 +252,7 @@ def run(ctx):
                     return
         return
     reopen_model(ctx, thorough)
+    close_twice_model(ctx)
     bad = model_matrix(ctx, thorough)
     for b in bad:
         ctx.violation("C07:model:%s:%s" % (b["property"], b["panic"] or "liveness"),
